@@ -161,3 +161,44 @@ Proof.
   destruct S as (_ & _ & _ & _ & _ & _ & _ & _ & Q & _). destruct S' as (_ & _ & _ & _ & _ & _ & _ & _ & Q' & E').
   rewrite Q, Q'. repeat split; auto; try (now left); congruence.
 Qed.
+
+(* ---- the statements refuted, as negations ---- *)
+Require Import MayV.Rt.SchedLoopThm.
+
+(* 1. with the eventfd written before the push the no-lost-wake-up statement is false *)
+Theorem wake_before_push_loses_the_wakeup t :
+  ~ (forall l w, LReach (Pwrong t) 1 l -> wpc l w = PSleep -> gq (base l) w <> [] -> evfd l w = true \/ pusher_in_flight l w).
+Proof.
+  intro H. destruct (wrong_state t) as (S & G & E & O & A & _).
+  specialize (H _ 0 (lafter_reach _ _ _ (run_wrong_ok t)) S). rewrite G in H.
+  destruct (H ltac:(discriminate)) as [X|[X|X]]; [congruence | rewrite O in X; lia | rewrite A in X; lia].
+Qed.
+
+(* the witness state itself: nobody is on the way to wake the worker, the coroutine waits for the timeout of the epoll_wait *)
+Theorem wake_before_push_witness t : exists l, LReach (Pwrong t) 1 l /\
+  wpc l 0 = PSleep /\ gq (base l) 0 = [1] /\ evfd l 0 = false /\ owed l 0 = 0 /\ anon l 0 = 0 /\ pre l 0 = 0 /\
+  tpc (base l) 1 = Idle /\ stk (base l) 1 = [] /\ dl l 0 = Some (rnd t) /\ now l = 0%N.
+Proof. eexists. split; [exact (lafter_reach _ _ _ (run_wrong_ok t)) | exact (wrong_state t)]. Qed.
+
+(* without work_steal the timeout does not help: three timeouts later the coroutine is still in the global queue *)
+Theorem wake_before_push_witness_nosteal : exists l, LReach (Pwrong_nosteal 10000000) 1 l /\
+  wpc l 0 = PSleep /\ gq (base l) 0 = [1] /\ evfd l 0 = false /\ owed l 0 = 0 /\ anon l 0 = 0 /\ pre l 0 = 0 /\
+  tpc (base l) 1 = Idle /\ nsel l 0 = 4 /\ now l = 30000000%N /\ ngrab l 1 = 0.
+Proof. eexists. split; [exact (lafter_reach _ _ _ run_wrong_nosteal_ok) | exact wrong_nosteal_state]. Qed.
+
+(* 2. the code as it is: no number B of local.pop calls (iterations of 'work) of its worker bounds the wait of a coroutine in
+   the global queue *)
+Theorem global_queue_not_bounded_by_pops t B :
+  ~ (forall l l' tr c w, LReach (Pcur t) 1 l -> lruns (Pcur t) l tr = Some l' -> In c (gq (base l) w) ->
+       npop l w + B <= npop l' w -> ngrab l c < ngrab l' c).
+Proof.
+  intro H. destruct (global_queue_starves t B) as (l & l' & R & RUN & I & _ & _ & NP & G & _).
+  specialize (H l l' _ 2 0 R RUN I). rewrite NP, G in H. specialize (H (le_n _)). lia.
+Qed.
+
+(* 3. the code as it is: a worker can sleep over a non-empty local queue with no wake-up under way, for the time T to the next
+   I/O timer - whatever the configured poll timeout t is *)
+Theorem local_queue_wait_not_bounded_by_poll_timeout t T : exists l, LReach (Pcur t) 1 l /\
+  wpc l 0 = PSleep /\ lq (base l) 0 = [1] /\ gq (base l) 0 = [] /\ evfd l 0 = false /\ owed l 0 = 0 /\ anon l 0 = 0 /\
+  dl l 0 = Some (rnd T) /\ now l = 0%N /\ tmo l 0 = Some T.
+Proof. eexists. split; [exact (lafter_reach _ _ _ (run_timer_ok T t)) | exact (timer_state T t)]. Qed.
